@@ -33,6 +33,9 @@ type Script struct {
 	AllowMiss bool     `json:"allow_missing"`
 	MetaURL   string   `json:"meta_url"`
 	InnerCode int      `json:"inner_code"`
+	// Earlier: requests served by the SAME wrapped handler before the judged one (each entry is that
+	// request's Authorization header values; an empty entry is a request without the header).
+	Earlier [][]string `json:"earlier,omitempty"`
 }
 
 var scopeAlpha = []string{"a", "b", "c", "read", "write:x", "A"}
@@ -93,6 +96,16 @@ func genScript(rt *rapid.T) Script {
 	s.AllowMiss = rapid.Bool().Draw(rt, "allow")
 	s.MetaURL = rapid.SampledFrom([]string{"", "https://rs.example/.well-known/oauth-protected-resource", "https://x/y?z=1"}).Draw(rt, "meta")
 	s.InnerCode = rapid.SampledFrom([]int{200, 204, 404}).Draw(rt, "inner")
+	for i, n := 0, rapid.SampledFrom([]int{0, 0, 1, 2, 4}).Draw(rt, "earlier"); i < n; i++ {
+		switch rapid.IntRange(0, 2).Draw(rt, "ekind") {
+		case 0:
+			s.Earlier = append(s.Earlier, []string{})
+		case 1:
+			s.Earlier = append(s.Earlier, []string{"Bearer tok"})
+		default:
+			s.Earlier = append(s.Earlier, []string{genHeader(rt)})
+		}
+	}
 	return s
 }
 
@@ -135,6 +148,9 @@ func parseChallenge(h string) (map[string]string, error) {
 			return nil, fmt.Errorf("malformed auth-param in %q", h)
 		}
 		k := strings.TrimSpace(rest[:eq])
+		if _, dup := out[k]; dup {
+			return nil, fmt.Errorf("auth-param %s occurs more than once in challenge %q", k, h)
+		}
 		rest = rest[eq+2:]
 		end := strings.IndexByte(rest, '"')
 		if end < 0 {
@@ -200,6 +216,17 @@ func runCase(s Script) (res vt.Result) {
 		w.WriteHeader(s.InnerCode)
 	})
 	h := auth.RequireBearerToken(verifier, opts)(inner)
+	for _, hs := range s.Earlier {
+		ereq := httptest.NewRequest("POST", "http://rs.example/mcp", strings.NewReader("{}"))
+		for _, v := range hs {
+			ereq.Header.Add("Authorization", v)
+		}
+		h.ServeHTTP(httptest.NewRecorder(), ereq)
+	}
+	verifierCalls, gotToken, innerRuns, innerInfo = 0, "", 0, nil
+	if len(s.Earlier) > 0 {
+		res.Class("handler_served_earlier_requests")
+	}
 	req := httptest.NewRequest("POST", "http://rs.example/mcp", strings.NewReader("{}"))
 	for _, v := range s.Headers {
 		req.Header.Add("Authorization", v)
@@ -249,7 +276,7 @@ func runCase(s Script) (res vt.Result) {
 	}
 	nearBoundary := s.ExpKind == "rel" && abs64(s.ExpRelNS+int64(skew)) <= 2
 	res.NonTrivial = falseConj == 1 || nearBoundary
-	res.Desc = fmt.Sprintf("%q|%s|%v|%v|%v|%v|%s|%d|%d|%v|%v", s.Headers, s.Verifier, s.NilOpts, s.Required, s.Granted, scopesOK, s.ExpKind, s.ExpRelNS+int64(skew), s.SkewNS, s.AllowMiss, s.MetaURL != "")
+	res.Desc = fmt.Sprintf("%q|%s|%v|%v|%v|%v|%s|%d|%d|%v|%v", s.Headers, s.Verifier, s.NilOpts, s.Required, s.Granted, scopesOK, s.ExpKind, s.ExpRelNS+int64(skew), s.SkewNS, s.AllowMiss, s.MetaURL != "") + fmt.Sprintf("|e%d", len(s.Earlier))
 	if admit {
 		res.Class("admitted")
 	} else {
